@@ -303,11 +303,11 @@ def gen_states(ints, order, features, forced=None):
 def gen_graph(ints, for_prebuild=False, logical_calls=False, states=None):
     t = Tape(ints)
     order = []
-    specs = [('function', 'f0', None), ('bridge', 'b0', 'MYEE'), ('instop', 'iop', 'A'), ('function', 'f1', None),
-             ('classop', 'cop', 'A'), ('instop', 'bop', 'B'), ('derived', 'da', 'A'), ('function', 'f2', None),
-             ('bridge', 'b1', 'MYEE'),
-             # equally named elements of different homes: an operation `cop` on another class, a bridge `b0` on another entity
-             ('classop', 'cop', 'B'), ('bridge', 'b0', 'ZEE')]
+    # `b0` exists on two external entities and `cop` on two classes: equally named elements of different homes, early in the
+    # list so that the later callables can invoke both in one body
+    specs = [('function', 'f0', None), ('bridge', 'b0', 'MYEE'), ('bridge', 'b0', 'ZEE'), ('instop', 'iop', 'A'),
+             ('classop', 'cop', 'A'), ('classop', 'cop', 'B'), ('function', 'f1', None), ('instop', 'bop', 'B'),
+             ('derived', 'da', 'A'), ('function', 'f2', None), ('bridge', 'b1', 'MYEE')]
     n = 3 + t.pick(len(specs) - 2)
     features = set()
     t0 = t
